@@ -55,6 +55,12 @@ def observe(part, prop, scn, cfg, aux):
     if prop == "column_pos":
         _, cd = slice_dims(scn)
         return _labels_to_pos(cd, list(part.column_labels), cfg["cols"], aux.get("csubs"))
+    if prop in ("row_order_signed", "column_order_signed"):
+        return getattr(part, prop[:-7])()
+    if prop in ("row_order_bogus", "column_order_bogus"):
+        from cr.cube.enums import ORDER_FORMAT
+        return [x if str(x).startswith("ins_") else int(x)
+                for x in to_py(getattr(part, prop[:-6])(format=ORDER_FORMAT.BOGUS_IDS))]
     obj = part
     for name in prop.split("__"):
         obj = getattr(obj, name)
@@ -115,7 +121,8 @@ def replay(job, rec):
     cfg = (scn.get("configs") or [configs.DEFAULT])[rec.get("ci", 1) - 1]
     resp = envelope.build_response(scn, rec, cfg)
     xf = configs.transforms_dict(cfg)
-    aux = rec.get("aux") or {}
+    auxs = rec.get("aux") or []
+    aux = auxs[0] if auxs else {}
     rd, cd = slice_dims(scn)
     base_tags = {"rows": kind_name(rd), "cols": kind_name(cd), "nd": len(scn["dims"]),
                  "ins_rows": any(r < 0 for r in aux.get("rows", ())),
@@ -160,6 +167,7 @@ def replay(job, rec):
                                      {"observed": to_py(obs), "expected": e},
                                      tags=dict(base_tags, prop="Cube." + prop)))
         for k, (part, exp) in enumerate(zip(parts, rec["parts"])):
+            aux = auxs[k] if k < len(auxs) else {}
             for prop, e in exp.items():
                 if prop in skip or (only and prop not in only):
                     continue
@@ -197,6 +205,7 @@ def replay(job, rec):
         # modified another property's cached value in place shows up here
         if not mism and not job.get("single_pass"):
             for k, (part, exp) in enumerate(zip(parts, rec["parts"])):
+                aux = auxs[k] if k < len(auxs) else {}
                 for prop in reversed(list(exp)):
                     e = exp[prop]
                     if prop in skip or (only and prop not in only):
@@ -218,4 +227,5 @@ def replay(job, rec):
                             {"partition": k, "observed": to_py(obs), "expected": e},
                             tags=dict(base_tags, prop=prop, reread=True)))
     return {"evaluations": evals, "mismatches": mism,
-            "nontrivial": "empty_data" not in feats, "features": feats}
+            "nontrivial": "empty_data" not in feats or bool(job.get("count_empty_nontrivial")),
+            "features": feats}
